@@ -103,7 +103,7 @@ def resOut : Res (List Ev) → Sexp
   | .fuel => .atom "fuel"
   | .err .unmodelled => .atom "unmodelled"
   | .err .notFound => .list [.atom "err", .atom "NotFound"]
-  | .err .syntax => .list [.atom "err", .atom "Syntax"]
+  | .err .syntaxErr => .list [.atom "err", .atom "Syntax"]
   | .err .undefined => .list [.atom "err", .atom "Undefined"]
   | .ok evs => .list (.atom "ok" :: evs.map evOut)
 
